@@ -846,7 +846,7 @@ Proof.
       * rewrite Hb, He, !str_eqb_refl. tauto.
       * apply str_eqb_eq in Hb, He. pose proof (Hr eq_refl e Hin). tauto.
     + intros r Hin. destruct (H3 r Hin) as [Et [e [Hin' [Hb [He [Ht [Hmax Hu]]]]]]]. split; [exact Et|].
-      exists e. split; [|exact Hu]. split; [exact Hin'|]. split.
+      exists e, (pe_rate e). split; [|split; [exact Hu|apply dcmp_refl]]. split; [exact Hin'|]. split.
       * unfold candidate. rewrite Hb, He, !str_eqb_refl. reflexivity.
       * intros e' Hin2 C2. unfold candidate in C2. rewrite !andb_true_iff, !str_eqb_eq in C2.
         destruct C2 as [[Hb2 He2] _]. apply Hmax; try assumption. apply (Hr eq_refl). exact Hin2.
@@ -856,7 +856,7 @@ Proof.
       * rewrite Hb, He, !str_eqb_refl. tauto.
       * apply str_eqb_eq in Hb, He. tauto.
     + intros r Hin. destruct (H3 r Hin) as [Et [e [Hin' [Hb [He [Ht [Hmax Hu]]]]]]]. split; [exact Et|].
-      exists e. split; [|exact Hu]. split; [exact Hin'|]. split.
+      exists e, (pe_rate e). split; [|split; [exact Hu|apply dcmp_refl]]. split; [exact Hin'|]. split.
       * unfold candidate. rewrite Hb, He, !str_eqb_refl. cbn [andb in_time]. apply Z.ltb_lt. exact Ht.
       * intros e' Hin2 C2. unfold candidate in C2. cbn [in_time] in C2.
         rewrite !andb_true_iff, !str_eqb_eq, Z.ltb_lt in C2.
@@ -972,13 +972,15 @@ Proof.
   - intros r Hr. specialize (H4 r Hr). unfold rec_ok_b in H4. rewrite andb_true_iff, str_eqb_eq in H4.
     destruct H4 as [Ht Hu]. split; [exact Ht|].
     assert (match rate_at lk f tgt (pr_source r) 0, pr_used r with
-            | Some e, Some (ts, rate) => (ts =? pe_ts e) && drepr_eqb rate (pe_rate e)
+            | Some e, Some (ts, rate) => (ts =? pe_ts e) && deqb rate (pe_rate e)
             | _, _ => false end = true ->
-            exists e, RateAt lk f tgt (pr_source r) 0 e /\ pr_used r = Some (pe_ts e, pe_rate e)) as G.
+            exists e rate, RateAt lk f tgt (pr_source r) 0 e /\
+                           pr_used r = Some (pe_ts e, rate) /\ dcmp rate (pe_rate e) = Eq) as G.
     { destruct (rate_at lk f tgt (pr_source r) 0) as [e|] eqn:Er; [|discriminate].
       destruct (pr_used r) as [[ts rate]|]; [|discriminate].
-      rewrite andb_true_iff, Z.eqb_eq, c07_drepr_eqb_eq. intros [-> ->].
-      exists e. split; [apply rate_at_some; exact Er|reflexivity]. }
+      rewrite andb_true_iff, Z.eqb_eq. intros [-> Hq].
+      exists e, rate. split; [apply rate_at_some; exact Er|]. split; [reflexivity|].
+      unfold deqb in Hq. destruct (dcmp rate (pe_rate e)); [reflexivity|discriminate|discriminate]. }
     destruct lk; try (apply G; exact Hu).
     destruct (pr_used r); [discriminate|reflexivity].
 Qed.
